@@ -221,6 +221,9 @@ class Check:
               "violations": len(self.violations)}
         if self.notes:
             ev["coverage"]["notes"] = self.notes
+        # a run that stopped at a violation may not have reached the point where it samples its inputs: the violations are its samples
+        if not ev["coverage"].get("samples"):
+            ev["coverage"]["samples"] = [{"kind": "violation", "value": {"what": w[:600], "replay": p_}} for w, p_ in self.violations[:3]] or [{"kind": "none", "value": "no input was executed"}]
         ev["coverage"]["known_findings_observed"] = [k for k, _ in self.known_hits]
         os.makedirs(EVIDENCE, exist_ok=True)
         with open(os.path.join(EVIDENCE, self.prop + ".json"), "w") as f:
